@@ -21,6 +21,7 @@ func init() {
 			"S4 exclusivity (lock file written only when absent, after registering the signal handler, which only the lock owner registers; mutating entry points return early when read-only), " +
 			"S5 the relations over collections (calls, parameters, struct members) compare every element, " +
 			"S6 a parameter is accepted without comparing its type name only on an edge where IsFile() == KindIsFile was established (a plain file type may be renamed; composite types containing files may not). " +
+			"S7 some function reachable from Ast.EquivalentCall reads the members of struct types (struct-typed parameters are not compared by name only). " +
 			"NOT decided: completeness (that cosmetic edits are accepted), races between two simultaneous first starts.",
 		Assumptions: commonAssumptions,
 	}
@@ -625,9 +626,20 @@ func ruleS5(c *an.Ctx) {
 					return
 				}
 				for i, a := range call.Call.Args {
-					if isColl(a) && i < len(h.Params) {
-						prm := h.Params[i]
-						if es := elemsIn(h, func(v ssa.Value) bool { return v == ssa.Value(prm) }); len(es) > 0 {
+					if i >= len(h.Params) {
+						continue
+					}
+					prm := h.Params[i]
+					var collInHelper func(v ssa.Value) bool
+					switch {
+					case isColl(a):
+						collInHelper = func(v ssa.Value) bool { return v == ssa.Value(prm) }
+					case a == ssa.Value(fn.Params[0]):
+						// the relation's own receiver handed on: the helper loops over recv.<field> itself
+						collInHelper = func(v ssa.Value) bool { return an.LoadsField(v, f) && an.RootOf(v) == ssa.Value(prm) }
+					}
+					if collInHelper != nil {
+						if es := elemsIn(h, collInHelper); len(es) > 0 {
 							// fn may report equality only through the helper's verdict
 							viaHelper := true
 							an.Instrs(fn, func(in2 ssa.Instruction) {
